@@ -369,6 +369,7 @@ def _candidate_values(env_inputs, ctx, model, rng, n_random=24):
                     hi = info["hi"] if info["hi"] is not None else 2.0
                     var[nm] = rng.uniform(lo, hi)
             cands.append(var)
+    rnd_cands = []
     for _ in range(n_random):
         d = {}
         for nm in names:
@@ -376,8 +377,16 @@ def _candidate_values(env_inputs, ctx, model, rng, n_random=24):
             lo = info["lo"] if info["lo"] is not None else -2.0
             hi = info["hi"] if info["hi"] is not None else 2.0
             d[nm] = rng.randint(int(lo), int(hi)) if info["kind"] == "int" else rng.uniform(lo, hi)
-        cands.append(d)
-    return cands
+        rnd_cands.append(d)
+    # model-derived candidates and random ones alternate: a solver model is free to put inputs that do not matter SYMBOLICALLY at
+    # special values (an imaginary part 0, an angle 0) where the concrete code takes another branch; generic values come early too
+    out = []
+    for i in range(max(len(cands), len(rnd_cands))):
+        if i < len(cands):
+            out.append(cands[i])
+        if i < len(rnd_cands):
+            out.append(rnd_cands[i])
+    return out
 
 
 def _numeric_filter(cands, ctx, pc, negs):
